@@ -735,8 +735,21 @@ struct SV {
         }
         default: { // constructors (n), (n,v), (first,last), c_array
             if constexpr (kCopy) {
-                unsigned k = ch.pick(3);
-                if (k == 0) {
+                unsigned k = ch.pick(4);
+                if (k == 3) { // from a built-in array rvalue: the caller's array stays alive (moved-from at most) and is destroyed by the caller
+                    if constexpr (N >= 2) {
+                        int a0 = draw_val(), a1 = draw_val();
+                        CR("ctor(T(&&)[2])", "n<=cap", "arr=[%d,%d]", a0, a1);
+                        {
+                            T arr[2] = {mkT(a0), mkT(a1)};
+                            E x(static_cast<T(&&)[2]>(arr));
+                            vf::cover("ctor(T(&&)[2])", vf::mix(N, vf::mix(a0, a1)));
+                            vf::eq_str("elements", show(read_all(x)), show(M{a0, a1}));
+                            arr[0] = mkT(3); // the source elements must still be assignable ...
+                            vf::eq_int("source-reusable", val(arr[0]), 3);
+                        } // ... and are destroyed here, exactly once
+                    }
+                } else if (k == 0) {
                     std::size_t n = draw_pos(N);
                     CR("ctor(n)", n == N ? "n=cap" : "n<cap", "n=%zu", n);
                     E x(n);
